@@ -21,7 +21,7 @@ REQUIRED = {t: {"shape_bare": 20, "shape_1": 20, "shape_2": 20, "shape_3+": 20, 
 
 
 def gen_cases(tier, seed):
-    n = 400 if tier == "quick" else 8000
+    n = 400 if tier == "quick" else 40000
     return [{"seed": seed * 100103 + i, "nmax": 40 if tier == "quick" or i % 10 else 300} for i in range(n)]
 
 
